@@ -193,9 +193,17 @@ impl RK23 {
                 break;
             }
 
+            // Check for underflow due to machine rounding
+            if 0.1 * h.abs() <= x.abs() * Float::EPSILON {
+                status = Status::StepSizeTooSmall;
+                break;
+            }
+
             // Check for last step adjustment
+            let mut last = false;
             if (x + h - xend) * posneg > 0.0 {
                 h = xend - x;
+                last = true;
             }
 
             // Stage 2
@@ -294,15 +302,19 @@ impl RK23 {
                 }
 
                 // Normal exit
-                if x == xend {
+                if last || x == xend {
                     break;
                 }
             } else {
-                // Step rejected
+                // Step rejected (a non-finite error norm shrinks the step as far as allowed)
                 steps.rejected += 1;
-                h *= (safety_factor * err.powf(error_exponent))
-                    .min(1.0)
-                    .max(scale_min);
+                h *= if err.is_finite() {
+                    (safety_factor * err.powf(error_exponent))
+                        .min(1.0)
+                        .max(scale_min)
+                } else {
+                    scale_min
+                };
             }
         }
 
